@@ -54,12 +54,18 @@ _PAT = {}
 
 
 def pats(kind, ext):
-    key = (kind, ext)
+    """ext: False / True, 'default' (argument omitted), or 0 / 1 (ints that equal the documented bool values)."""
+    key = (kind, repr(ext))
     if key not in _PAT:
         import pregex.meta.essentials as es
-        p = getattr(es, kind)(is_extensible=ext)
+        p = getattr(es, kind)() if ext == 'default' else getattr(es, kind)(is_extensible=ext)
         _PAT[key] = (p, re.compile(str(p), dsl.FLAGS))
     return _PAT[key]
+
+
+def treecheck_documented():
+    from pbt import treecheck
+    return treecheck.documented_exceptions()
 
 
 def violation(kind, case, detail, ctx):
@@ -100,20 +106,30 @@ def check_case(case, ctx):
         if not ok:
             ctx.case(case, False)
             return
-        p, rx = pats(kind, False)
+        flag = case.get('flag', False)
+        try:
+            p, rx = pats(kind, flag)
+        except treecheck_documented() as ex:
+            if flag == 0 and flag is not False:       # an int where a bool is documented: rejecting it is within the docs
+                ctx.count('int_flag_rejected')
+                ctx.case(case, False)
+                return
+            raise
+        ctx.count(f'embed_flag:{flag!r}')
         text = pre + addr + suf
+        call = f'{kind}()' if flag == 'default' else f'{kind}(is_extensible={flag!r})'
         glue = '0123456789.' if kind == 'IPv4' else '0123456789:'
         got = p.get_matches_and_pos(text)
         for (g, s, e) in got:
             if (s > 0 and text[s - 1] in glue) or (e < len(text) and text[e] in glue):
-                violation(f'glued:{kind}', case, f'{kind}() matched {g!r} at ({s},{e}) in {text!r} although it is glued to {text[s-1:s]!r}/{text[e:e+1]!r}', ctx)
+                violation(f'glued:{kind}', case, f'{call} matched {g!r} at ({s},{e}) in {text!r} although it is glued to {text[s-1:s]!r}/{text[e:e+1]!r}', ctx)
         free_l = pre == '' or pre[-1] in ' ,;()x'
         free_r = suf == '' or suf[0] in ' ,;()x'
         if kind == 'IPv6':
             free_l = pre == '' or pre[-1] in ' ,;()'
             free_r = suf == '' or suf[0] in ' ,;()'
         if free_l and free_r and (addr, len(pre), len(pre) + len(addr)) not in got:
-            violation(f'standalone_missed:{kind}', case, f'{kind}() did not match the standalone address {addr!r} in {text!r}: {got!r}', ctx)
+            violation(f'standalone_missed:{kind}', case, f'{call} did not match the standalone address {addr!r} in {text!r}: {got!r}', ctx)
         ctx.case(case, True, sample={'class': kind, 'text': text, 'matches': [g for g, _, _ in got]})
         return
     raise ValueError(mode)
@@ -264,7 +280,8 @@ def run_shard(spec, ctx):
                        st.tuples(st.lists(st.sampled_from([0, 0, 0, 1, 0xFFFF, 0xAB]), min_size=8, max_size=8).map(
                            lambda gs: sum(g << (16 * (7 - i)) for i, g in enumerate(gs))), st.integers(0, 999))).map(lambda t: render_v6(t[0], t[1]))
         ctxs = st.sampled_from(['', ' ', '0', '00', '1', '9', '5', '.', ':', 'x', ',', '(', ')', ' 1', ' 0', '. ', ': ', 'a:', '::', '1.', '0.', 'x ', ';', 'f', 'F'])
+        flags = st.sampled_from([False, False, 'default', 'default', 0])
         strat = st.one_of(
-            st.fixed_dictionaries({'mode': st.just('embed'), 'kind': st.just('IPv4'), 'addr': v4, 'pre': ctxs, 'suf': ctxs}),
-            st.fixed_dictionaries({'mode': st.just('embed'), 'kind': st.just('IPv6'), 'addr': v6, 'pre': ctxs, 'suf': ctxs}))
+            st.fixed_dictionaries({'mode': st.just('embed'), 'kind': st.just('IPv4'), 'addr': v4, 'pre': ctxs, 'suf': ctxs, 'flag': flags}),
+            st.fixed_dictionaries({'mode': st.just('embed'), 'kind': st.just('IPv6'), 'addr': v6, 'pre': ctxs, 'suf': ctxs, 'flag': flags}))
         run_hypothesis(ctx, strat, check_case, spec['examples'], label='embed')
